@@ -149,7 +149,7 @@ class Index:
             if until:
                 start = self.prefix + until + b"\x00"
             else:
-                start = self.prefix + b"\xff"
+                start = self.prefix + b"\xff" * 5
             cursor.set_range(start)
             stop = self.prefix
             if since:
